@@ -13,6 +13,7 @@ import Oas3Model.Driver.Defaults
 import Oas3Model.Driver.Enum
 import Oas3Model.Driver.Cache
 import Oas3Model.Driver.Codec
+import Oas3Model.Driver.Compile
 import Oas3Model.Driver.Discr
 import Oas3Model.Driver.Flags
 import Oas3Model.Driver.Inject
@@ -34,6 +35,7 @@ def allOps : List (String × Handler) := List.flatten [
   Oas3.Driver.Enum.ops,
   Oas3.Driver.Cache.ops,
   Oas3.Driver.Codec.ops,
+  Oas3.Driver.Compile.ops,
   Oas3.Driver.Discr.ops,
   Oas3.Driver.Flags.ops,
   Oas3.Driver.Inject.ops,
